@@ -2472,7 +2472,12 @@ impl Translator {
                 self.emit(st, Instr::EqualInt(Reg::Top, Reg::Top, Reg::Top));
                 self.emit(st, Instr::JumpIfFalse(end_label_iter.clone()));
                 let mut or_pat_decisions = HashSet::default();
-                self.handle_pat_binding(pat, offset_table, st, mono, &mut or_pat_decisions);
+                if self.get_ty(mono, pat.node()).unwrap() == SolvedType::Void {
+                    // a void item is carried by `some` as a placeholder value
+                    self.emit(st, Instr::Pop);
+                } else {
+                    self.handle_pat_binding(pat, offset_table, st, mono, &mut or_pat_decisions);
+                }
                 st.loop_stack.push(EnclosingLoop {
                     start_label: start_label.clone(),
                     end_label: end_label_break.clone(),
